@@ -260,7 +260,7 @@ class SolverSpec(corevc.Spec):
             ok_acc = isinstance(ai, form.FormAccessor) and isinstance(av, form.FormAccessor) and ai.mapping is me.attrs['_i'] \
                 and av.mapping is me.attrs['_v'] and isinstance(ai.form, Opaque) and isinstance(av.form, Opaque) \
                 and ai.form.ref.sexpr() == z3.Function('form_of_field', OBJ, OBJ)(fobj.ref).sexpr() and av.form.ref.sexpr() == ai.form.ref.sexpr()
-        it.oblige(f'eval@{node.lineno}/evaluated-against-the-current-input-and-value-stores', z3.BoolVal(bool(ok_acc)))
+        it.oblige(f'{it.site(node)}/eval/evaluated-against-the-current-input-and-value-stores', z3.BoolVal(bool(ok_acc)))
         if r.branch(fresh('line_ok', z3.BoolSort()), where=f'oracle-ok@{node.lineno}'):
             v = fresh('value', VAL)
             it.ghost['oracle_ok'] = (name_of(fobj.ref), v)
@@ -299,12 +299,12 @@ class SolverSpec(corevc.Spec):
             k = name_of(missing)
             nb = args[1]
             ref = me.attrs['_refused_input']
-            it.oblige(f'prompt@{node.lineno}/only-while-not-refused', z3.Not(to_term(ref)) if isinstance(ref, SV) else z3.BoolVal(ref is False))
-            it.oblige(f'prompt@{node.lineno}/asked-input-is-declared', z3.And(s.IM.has[k], s.IM.val[k] == missing))
-            it.oblige(f'prompt@{node.lineno}/asked-input-is-not-already-supplied', z3.Not(s.C.mem[k]))
-            it.oblige(f'prompt@{node.lineno}/asked-input-has-a-registered-waiting-line', z3.And(s.UI.has[k], s.UI.ln[k] >= 1))
+            it.oblige(f'prompt@{it.site(node)}/only-while-not-refused', z3.Not(to_term(ref)) if isinstance(ref, SV) else z3.BoolVal(ref is False))
+            it.oblige(f'prompt@{it.site(node)}/asked-input-is-declared', z3.And(s.IM.has[k], s.IM.val[k] == missing))
+            it.oblige(f'prompt@{it.site(node)}/asked-input-is-not-already-supplied', z3.Not(s.C.mem[k]))
+            it.oblige(f'prompt@{it.site(node)}/asked-input-has-a-registered-waiting-line', z3.And(s.UI.has[k], s.UI.ln[k] >= 1))
             is_entry = isinstance(nb, corevc.MapBagEntry) and nb.parent is s.UI
-            it.oblige(f'prompt@{node.lineno}/needed-by-is-the-list-of-lines-waiting-on-that-input',
+            it.oblige(f'prompt@{it.site(node)}/needed-by-is-the-list-of-lines-waiting-on-that-input',
                       z3.And(z3.BoolVal(bool(is_entry)), (nb.k == k) if is_entry else z3.BoolVal(False)))
             it.ghost['prompts'] = it.ghost.get('prompts', []) + [(k, value, supplied)]
             return (value, supplied)
@@ -379,6 +379,7 @@ def _spec_methods():
             # InputStore.__setitem__ (verified in C11): MissingInputSpecification unless the key is declared
             if it.run.branch(z3.Not(s.IM.has[k]), where=f'iset@{node.lineno}'):
                 raise Raised(inputs.MissingInputSpecification(args[0]), node)
+            it.oblige(f'store@{it.site(node)}/stored-answer-passed-the-validator', valid_in(s.IM.val[k], to_term(args[1])))
             C = it.ghost['C']
             C2 = ZSet(NAME, z3.Store(C.mem, k, z3.BoolVal(True)), 'C')
             it.ghost['C'] = C2
@@ -475,12 +476,12 @@ def attempt_field_contract(spec):
         ft = to_term(fobj)
         s0 = spec.st(it, me)
         # requires: the attempted line is a scheduled, registered line; invariant with it in flight
-        it.oblige(f'call@{node.lineno}/_attempt_field/requires/known-line', known(s0, ft))
+        it.oblige(f'call@{it.site(node)}/_attempt_field/requires/known-line', known(s0, ft))
         old_inflight = it.ghost.get('inflight')
         it.ghost['inflight'] = name_of(ft)
         s0 = spec.st(it, me)
         for label, g in invariant(s0):
-            it.oblige(f'call@{node.lineno}/_attempt_field/requires/{label}', g)
+            it.oblige(f'call@{it.site(node)}/_attempt_field/requires/{label}', g)
         it.ghost['inflight'] = old_inflight
         pre = St(me.snap(), dict(it.ghost))
         # outcome: returns normally or propagates an exception that is not one of the handled four
